@@ -136,9 +136,33 @@ impl Prop for C04 {
     let op = case.input["op"].as_str().unwrap().to_string();
     let st = case.input["srctype"].as_str().unwrap().to_string();
     let form = case.cell.split("form=").nth(1).unwrap_or("").split(';').next().unwrap_or("").to_string();
-    let fresh = || { let mut s = Sess::new(); s.bind("x", &x, true); s.bind("w", &w, true); s.bind("v", &v, false); s };
+    // index forms: in half of the cases (hash of the case id) index expressions of the target are bound to variables first
+    // (x[i1,i2] = v instead of x[2,[1 3]] = v); the definitions are part of every fresh session, before the snapshot
+    let h = case.id.bytes().fold(0xcbf29ce484222325u64, |h, b| (h ^ b as u64).wrapping_mul(0x100000001b3));
+    let hoist = |text: &str, prefix: &str| -> (Vec<String>, String) {
+      let none = (vec![], text.to_string());
+      if (h >> 8) & 1 == 0 || !text.starts_with("x[") { return none; }
+      let mut depth = 0; let mut end = None;
+      for (i, ch) in text.char_indices().skip(1) { match ch { '[' => depth += 1, ']' => { depth -= 1; if depth == 0 { end = Some(i); break; } } _ => {} } }
+      let Some(end) = end else { return none };
+      let inner = &text[2..end];
+      let mut parts: Vec<String> = Vec::new(); let mut d = 0; let mut cur = String::new();
+      for ch in inner.chars() { match ch { '[' => { d += 1; cur.push(ch); } ']' => { d -= 1; cur.push(ch); } ',' if d == 0 => { parts.push(cur.clone()); cur.clear(); } _ => cur.push(ch) } }
+      parts.push(cur);
+      let mut defs = Vec::new();
+      for (i, p) in parts.iter_mut().enumerate() { if p.trim() == ":" || (h >> (9 + i)) & 1 == 0 { continue; } let name = format!("{}{}", prefix, i + 1); defs.push(format!("{} := {}", name, p)); *p = name; }
+      if defs.is_empty() { return none; }
+      (defs, format!("x[{}]{}", parts.join(","), &text[end + 1..]))
+    };
+    let (defs_s, stmt) = hoist(&stmt, "i");
+    let probe_h = case.input["probe"].as_str().map(|p| hoist(p, "p"));
+    let mut defs = defs_s.clone(); if let Some((d, _)) = &probe_h { defs.extend(d.iter().cloned()); }
+    // if an index definition itself is not accepted, the literal form is used
+    let (stmt, probe_txt, defs) = { let mut t = Sess::new(); if defs.iter().all(|d| t.eval(d).is_ok()) { (stmt, probe_h.map(|p| p.1), defs) } else { (case.input["stmt"].as_str().unwrap().to_string(), case.input["probe"].as_str().map(|p| p.to_string()), vec![]) } };
+    let hoisted = !defs.is_empty();
+    let fresh = || { let mut s = Sess::new(); s.bind("x", &x, true); s.bind("w", &w, true); s.bind("v", &v, false); for d in defs.iter() { let _ = s.eval(d); } s };
 
-    if let Some(probe) = case.input["probe"].as_str() {
+    if let Some(probe) = probe_txt.as_deref() {
       let mut ps = fresh();
       if !ps.eval(probe).is_ok() { return Outcome::trivial().tag(format!("unsupported:{}:{}", form, op)); }
       let mut s = fresh();
@@ -194,7 +218,7 @@ impl Prop for C04 {
             }
           }
         }
-        Outcome::held().tag(format!("arm:{}", arm.split_whitespace().next().unwrap_or("")))
+        Outcome::held().tag(format!("arm:{}", arm.split_whitespace().next().unwrap_or(""))).tag(if hoisted { "ixform:variables" } else { "ixform:literal" })
       }
     }
   }
